@@ -17,12 +17,13 @@ SetsOf(f) == [e \in EP |-> IF e \in DOMAIN f THEN SetOf(f[e]) ELSE {}]
 InDom(f, e) == e \in DOMAIN f
 TBoot == /\ Is("Boot")
          /\ kind' = [e \in EP |-> IF InDom(E.kind, e) THEN E.kind[e] ELSE CHOOSE k \in Kinds : TRUE]
-         /\ cfg' = [lb |-> E.lb, prio |-> [e \in EP |-> IF InDom(E.prio, e) THEN E.prio[e] ELSE 1]]
+         /\ cfg' = [engine |-> E.engine, lb |-> E.lb, prio |-> [e \in EP |-> IF InDom(E.prio, e) THEN E.prio[e] ELSE 1]]
          /\ up' = [e \in EP |-> IF InDom(E.kind, e) THEN "up" ELSE "down"] /\ lists' = SetsOf(E.lists)
          /\ status' = [e \in EP |-> IF InDom(E.status, e) THEN E.status[e] ELSE "offline"] /\ known' = SetsOf(E.known)
          \* the boot itself is an obligation: everybody probed healthy and listed
          /\ \A e \in DOMAIN E.kind : status'[e] = "healthy"
          /\ known' = lists'
+         /\ hb' = [e \in EP |-> 0]
          /\ req' = NoReq /\ act' = "Init" /\ cnt' = [e \in EP |-> [ok |-> 0, fail |-> 0]] /\ Consume
 TUp     == Is("Up") /\ SetUp(E.e, E.b) /\ Consume
 TRelist == Is("Relist") /\ Relist(E.e, SetOf(E.S)) /\ Consume
@@ -46,8 +47,9 @@ TRepo   == /\ Is("Repo") /\ Idle /\ \A e \in DOMAIN E.status : E.status[e] = sta
 
 TList   == Is("List") /\ List(E.route) /\ ListOK(E.route, SetOf(E.ids)) /\ Consume
 
-TraceInit == /\ kind = [e \in EP |-> CHOOSE k \in Kinds : TRUE] /\ cfg = [lb |-> "round-robin", prio |-> [e \in EP |-> 1]] /\ up = [e \in EP |-> "up"]
+TraceInit == /\ kind = [e \in EP |-> CHOOSE k \in Kinds : TRUE] /\ cfg = [engine |-> "sherpa", lb |-> "round-robin", prio |-> [e \in EP |-> 1]] /\ up = [e \in EP |-> "up"]
              /\ lists = [e \in EP |-> {}] /\ status = [e \in EP |-> "healthy"] /\ known = [e \in EP |-> {}]
+             /\ hb = [e \in EP |-> 0]
              /\ req = NoReq /\ act = "Init" /\ cnt = [e \in EP |-> [ok |-> 0, fail |-> 0]] /\ scn = <<>> /\ l = 1
 TraceNext == TList \/ TBoot \/ TUp \/ TRelist \/ THealth \/ TReq \/ TRecv \/ TSilent \/ TDone \/ TRepo
 TraceSpec == TraceInit /\ [][TraceNext]_tvars
